@@ -1,10 +1,10 @@
 SPECIFICATION MCSpec
 CONSTANTS
-  Async = FALSE
+  Async = TRUE
   MaxThreads = 3
-  NKeys = 2
+  NKeys = 1
   NNs = 1
-  MaxOps = 4
+  MaxOps = 6
 CONSTRAINT Bound
 INVARIANT TypeOK
 INVARIANT LazyOnlyAbsent
